@@ -41,7 +41,7 @@ func genC09(r *core.Rng, id int) *Case {
 	// valid, non-clashing options only: the whole program must be rejected (or wrongly
 	// accepted) because of THAT clash, not because of some other one converted earlier
 	fam := id % 10
-	targeted := fam == 1 || fam == 2 || fam == 4 || fam == 5 || fam == 9
+	targeted := fam == 1 || fam == 2 || fam == 4 || fam == 5 || fam == 6 || fam == 9
 	if targeted {
 		gen.DecorateSafe(r, s, d, 0.2)
 	} else {
@@ -75,6 +75,11 @@ func genC09(r *core.Rng, id int) *Case {
 	}
 	if fam == 5 {
 		if e := gen.EnclosingTypenameOp(s, "E"); e != nil {
+			defs = append(defs, e)
+		}
+	}
+	if fam == 6 {
+		if e := gen.LeafTypenameClashOp(s, "LC"); e != nil {
 			defs = append(defs, e)
 		}
 	}
@@ -177,6 +182,9 @@ func RunC09(tier string, seed int64, outDir string, replay string) (*core.Result
 				class := "C09/type-does-not-carry-selection"
 				if strings.Contains(f, "belongs to another selection") {
 					class = "C09/type-shared-with-a-larger-selection"
+				}
+				if strings.Contains(f, "two leaf types share one Go type") {
+					class = "C09/leaf-types-share-a-go-type"
 				}
 				res.Fail(core.Failure{Case: c.ID, Class: class, What: f, Replay: c})
 			}
